@@ -117,3 +117,47 @@ Theorem C05_unprotected_ccs_inert_established :
   forall W lease s w, unprotected_ccs w = true -> recv_est true W lease s w = (s, []).
 Proof. exact unprotected_ccs_inert_established. Qed.
 Print Assumptions C05_unprotected_ccs_inert_established.
+
+(* ---- Unprotected application data, in every handshake state (conn.go handleApplicationDataRecord /
+   parkEarlyApplicationData / takeEarlyApplicationData / Read; model: [conn], [cstep], [crun] of Rec/Recv.v).
+   An application_data record of epoch 0 is refused whether or not the handshake is complete: the record
+   layer is unchanged, nothing is handed to Read, nothing is parked for a later Read. *)
+Theorem C05_unprotected_appdata_never_delivered :
+  forall (W : nat) (k : conn) (w : wire) (p : bytes),
+    w_epoch w = 0 -> w_clear w = CApp p -> cstep W k (KArrive w) = (k, []).
+Proof. exact unprotected_appdata_never_delivered. Qed.
+Print Assumptions C05_unprotected_appdata_never_delivered.
+
+(* ... hence no later Read returns it: it vanishes from every history *)
+Theorem C05_unprotected_appdata_vanishes :
+  forall (W : nat) (k : conn) (w : wire) (p : bytes) (ops : list cop),
+    w_epoch w = 0 -> w_clear w = CApp p -> crun W k (KArrive w :: ops) = crun W k ops.
+Proof. exact unprotected_appdata_vanishes. Qed.
+Print Assumptions C05_unprotected_appdata_vanishes.
+
+(* whatever its content type and body, a record of epoch 0 adds nothing to what Read will return *)
+Theorem C05_unprotected_record_adds_nothing :
+  forall (W : nat) (k : conn) (w : wire),
+    w_epoch w = 0 ->
+    k_early (fst (cstep W k (KArrive w))) = k_early k /\ k_chan (fst (cstep W k (KArrive w))) = k_chan k /\
+    snd (cstep W k (KArrive w)) = [].
+Proof. exact unprotected_record_adds_nothing. Qed.
+Print Assumptions C05_unprotected_record_adds_nothing.
+
+(* the guard is needed in EVERY handshake state: in the variant of the model whose refusal is conditioned
+   on "handshake complete" a record nothing authenticates, arriving while the handshake runs, is parked
+   and is the first payload Read returns (replayed on the implementation by leg hsinject) *)
+Theorem C05_unprotected_guard_if_established_refuted :
+  exists (w : wire) (p : bytes),
+    w_epoch w = 0 /\ w_auth w = None /\ w_clear w = CApp p /\
+    snd (crun_with recv_guard_if_established 64 (cinit [] false) [KArrive w; KEstablish; KRead]) = [p] /\
+    snd (crun 64 (cinit [] false) [KArrive w; KEstablish; KRead]) = [].
+Proof. exact guard_if_established_refuted. Qed.
+Print Assumptions C05_unprotected_guard_if_established_refuted.
+
+Theorem C05_guard_variant_agrees_elsewhere :
+  forall est W lease s w,
+    est = true \/ unprotected_app w = None ->
+    recv_guard_if_established est W lease s w = recv_est est W lease s w.
+Proof. exact guard_variant_agrees_elsewhere. Qed.
+Print Assumptions C05_guard_variant_agrees_elsewhere.
